@@ -97,12 +97,15 @@ def run_world(sc, idx, spec, rules, mn, mx):
     src, dst = os.path.join(base, "src"), os.path.join(base, "dst")
     world.mk_tree(src, spec)
     args = [src, dst]
-    shuffled = list(rules)
-    # options of different kinds are given in arbitrary command-line order; main.rs regroups them
-    for i in range(len(shuffled) - 1, 0, -1):
-        j = (idx * 7 + i * 3) % (i + 1)
-        if shuffled[i][0] != shuffled[j][0]:
-            shuffled[i], shuffled[j] = shuffled[j], shuffled[i]
+    # options of different kinds are given in arbitrary command-line order (main.rs regroups them by kind); options of the
+    # SAME kind keep their relative order, which is significant (first match wins)
+    import random as _random
+    rr = _random.Random(idx * 7919 + 13)
+    queues = [[x for x in rules if x[0] == k] for k in (0, 1, 2)]
+    shuffled = []
+    while any(queues):
+        q = rr.choice([q for q in queues if q])
+        shuffled.append(q.pop(0))
     for kind, text in shuffled:
         args.append({0: "--filter", 1: "--include", 2: "--exclude"}[kind] + "=" + text)
     if mn is not None:
